@@ -33,13 +33,16 @@ where
 {
     let expr = expr.as_ref();
     let ascii_letters = "abcdefghijklmnopqrstuvwxyzABCDEFGHIJKLMNOPQRSTUVWXYZ";
-    let normalized = expr
-        .chars()
-        .filter(|c| !c.is_whitespace())
-        .collect::<String>()
-        .replace("^-", "^@")
-        .replace("-", "+-")
-        .replace("^@", "^-"); // ^- -> ^@ protects negative exponents
+    // Every '-' starts a new term ("+-") unless it directly follows '^' (sign of an exponent)
+    let mut normalized = String::with_capacity(expr.len() + 8);
+    let mut previous = None;
+    for ch in expr.chars().filter(|c| !c.is_whitespace()) {
+        if ch == '-' && previous != Some('^') {
+            normalized.push('+');
+        }
+        normalized.push(ch);
+        previous = Some(ch);
+    }
     let mut parts: Vec<&str> = normalized.split('+').collect();
 
     // A leading sign (or an empty input) leaves one empty part in front
